@@ -18,14 +18,16 @@ CHECKS = {
     "C16": dict(
         text="Lean theorems on the hand-written model of coarsegrain.py (validity tests, aggregation / spreading subscripts and "
              "statement inventory regenerated from the source): documented validity rules <-> accepted; volume, species totals, "
-             "environments, chemostat flags of every group; un-coarse-graining spreads evenly, preserves group totals, zero on "
-             "dropped cells (see Props/C16.lean for which are proved in full and which are `_partial`). Tie: translator "
+             "environments, chemostat flags of every group; coarse edge <-> groups sharing a face, surface = shared faces x h^2, "
+             "distance^2 = centroid distance^2, no self-loops / duplicates; un-coarse-graining spreads evenly, preserves group "
+             "totals, zero on dropped cells; identity map = grid_to_graph (all proved for all inputs). Tie: translator "
              "CoarsePy/IndexPy + correspondence (ops coarsegrain, cg_check, uncoarsegrain) + brute-force aggregation oracle on "
              "the real code (face-sharing pairs, shared-face counts, centroid distances from cell coordinates), identity map "
              "versus plain simulation on the three rebuilt engines.",
         note="Lean kernel + {propext, Classical.choice, Quot.sound}; translator; cube / square roots compared to the exact model "
-             "within 1e-9 (distances squared); edge-structure and identity-map statements are established by the correspondence "
-             "and the oracle, not proved for all inputs.",
+             "within 1e-9 (distances squared); valid_iff assumes environment indices != -2 (the code's unset marker), cg_chem_any "
+             "assumes flags >= 0; identity map on the stochastic engines: identical for equal draws (same seed only when "
+             "nothing diffuses, the grid and graph engines enumerate neighbours in different orders).",
         technique="Lean 4 proof over translator-generated formulas + differential correspondence",
         design="§6 C16"),
     "C17": dict(
